@@ -16,10 +16,12 @@ import (
 	"go.uber.org/zap/zaptest/observer"
 )
 
-// C14: SugaredLogger over an observer core.  A case is a chain of With/WithLazy calls
-// followed by one logging call of one of the four families (w, print, f, ln) at one
-// level; the observation is every entry the observer recorded (level, message, fields)
-// and how the call ended.  See coq/theories/C14/Model.v for the wire layout.
+// C14: SugaredLogger over an observer core.  A case is a core enabler (a LevelEnablerFunc
+// over any set of levels, a plain zapcore.Level, an AtomicLevel), a chain of With/WithLazy
+// calls interleaved with changes of that enabler, followed by one logging call of one of the
+// four families (w, print, f, ln) at one level (named or custom, -128..127); the observation is
+// every entry the observer recorded (level, message, fields) and how the call ended.
+// See coq/theories/C14/Model.v for the wire layout.
 
 // ---------------------------------------------------------------- value universe
 type c14Err struct{ id int }
@@ -298,8 +300,43 @@ func c14desc(v interface{}) SX {
 }
 
 // ---------------------------------------------------------------- cases
+// the core's LevelEnabler
+const (
+	c14EnFunc   = 0 // zap.LevelEnablerFunc accepting exactly the levels of set (no Level() method; not monotone in general)
+	c14EnLevel  = 1 // a plain zapcore.Level used as the enabler (no Level() method either): l >= min
+	c14EnAtomic = 2 // zap.AtomicLevel at min; SetLevel moves it during the history
+)
+
+type c14enab struct {
+	kind int
+	set  []int // kind c14EnFunc: the enabled levels, ascending
+	min  int   // kinds c14EnLevel, c14EnAtomic
+}
+
+func (e c14enab) sx() SX {
+	if e.kind == c14EnFunc {
+		ls := make([]SX, len(e.set))
+		for i, l := range e.set {
+			ls[i] = I(l)
+		}
+		return L(I(e.kind), L(ls...))
+	}
+	return L(I(e.kind), I(e.min))
+}
+
+// a LevelEnablerFunc for the levels -1..5 given as a mask (the named levels)
+func c14maskEn(m [7]bool) c14enab {
+	e := c14enab{kind: c14EnFunc}
+	for i, b := range m {
+		if b {
+			e.set = append(e.set, i-1)
+		}
+	}
+	return e
+}
+
 type c14case struct {
-	mask    [7]bool // Enabled for levels -1..5
+	en      c14enab
 	dev     bool
 	withs   []c14with
 	fam     int // 0 w, 1 print, 2 f, 3 ln
@@ -308,9 +345,13 @@ type c14case struct {
 	args    []interface{}
 	generic bool // Logw/Log/Logf/Logln(lvl, ...) instead of the named method
 }
+
+// one step of the history before the call: With/WithLazy(args...), or (set != nil) the core's
+// enabler changes: AtomicLevel.SetLevel(set.min) / the set read by the LevelEnablerFunc is replaced
 type c14with struct {
 	lazy bool
 	args []interface{}
+	set  *c14enab
 }
 
 type c14fatalHook struct{ hit *bool }
@@ -354,11 +395,25 @@ func c14call(s *zap.SugaredLogger, c *c14case) {
 
 // run the real SugaredLogger: (term, entries, text of an unexpected panic)
 func c14run(c *c14case) (term int, entries []observer.LoggedEntry, crash string) {
-	mask := c.mask
-	enab := zap.LevelEnablerFunc(func(l zapcore.Level) bool {
-		i := int(l) + 1
-		return i >= 0 && i < 7 && mask[i]
-	})
+	var enab zapcore.LevelEnabler
+	var atom zap.AtomicLevel
+	cur := c.en.set // state read by the LevelEnablerFunc
+	switch c.en.kind {
+	case c14EnLevel:
+		enab = zapcore.Level(c.en.min)
+	case c14EnAtomic:
+		atom = zap.NewAtomicLevelAt(zapcore.Level(c.en.min))
+		enab = atom
+	default:
+		enab = zap.LevelEnablerFunc(func(l zapcore.Level) bool {
+			for _, x := range cur {
+				if x == int(l) {
+					return true
+				}
+			}
+			return false
+		})
+	}
 	core, logs := observer.New(enab)
 	fatal := false
 	opts := []zap.Option{zap.WithFatalHook(c14fatalHook{&fatal})}
@@ -382,6 +437,14 @@ func c14run(c *c14case) (term int, entries []observer.LoggedEntry, crash string)
 		}()
 		s := zap.New(core, opts...).Sugar()
 		for _, w := range c.withs {
+			if w.set != nil {
+				if c.en.kind == c14EnAtomic {
+					atom.SetLevel(zapcore.Level(w.set.min))
+				} else {
+					cur = w.set.set
+				}
+				continue
+			}
 			if w.lazy {
 				s = s.WithLazy(w.args...)
 			} else {
@@ -421,14 +484,16 @@ func c14emit(ctx *Ctx, c *c14case, class string) {
 			ctx.Assume("fmt.Sprintln output does not end in a newline")
 		}
 	}
-	mask := make([]SX, 7)
-	for i, b := range c.mask {
-		mask[i] = Bool(b)
-	}
 	withs := make([]SX, len(c.withs))
 	nargs, kinds := len(c.args), map[int]bool{}
+	nwith := 0
 	for i, w := range c.withs {
-		withs[i] = L(Bool(w.lazy), c14args(w.args))
+		if w.set != nil {
+			withs[i] = L(I(1), w.set.sx())
+			continue
+		}
+		nwith++
+		withs[i] = L(I(0), Bool(w.lazy), c14args(w.args))
 		nargs += len(w.args)
 		for _, a := range w.args {
 			kinds[c14kind(a)] = true
@@ -439,7 +504,7 @@ func c14emit(ctx *Ctx, c *c14case, class string) {
 			kinds[c14kind(a)] = true
 		}
 	}
-	input := L(L(mask...), Bool(c.dev), L(withs...),
+	input := L(c.en.sx(), Bool(c.dev), L(withs...),
 		L(I(c.fam), I(c.lvl), Str(c.text), c14args(c.args), Str(sprint), Str(sprintf), Str(sprintln), Bool(c.generic)))
 
 	term, entries, crash := c14run(c)
@@ -451,9 +516,10 @@ func c14emit(ctx *Ctx, c *c14case, class string) {
 		}
 		es[i] = L(I(int(e.Level)), Str(e.Message), L(fs...))
 	}
-	meta := map[string]string{"class": class, "fam": strconv.Itoa(c.fam), "lvl": strconv.Itoa(c.lvl), "n": strconv.Itoa(nargs)}
+	meta := map[string]string{"class": class, "fam": strconv.Itoa(c.fam), "lvl": strconv.Itoa(c.lvl), "n": strconv.Itoa(nargs),
+		"en": strconv.Itoa(c.en.kind)}
 	nt := "0"
-	if (c.fam == 0 || len(c.withs) > 0) && nargs >= 3 && len(kinds) >= 2 {
+	if (c.fam == 0 || nwith > 0) && nargs >= 3 && len(kinds) >= 2 {
 		nt = "1"
 	}
 	if c.fam != 0 && len(c.args) >= 1 {
@@ -584,6 +650,61 @@ func (g *c14gen) mask() [7]bool {
 	}
 }
 
+// levels used for enabler sets and for calls at custom levels: the named ones, the zapr/logr
+// verbosity levels just below Debug, the first ones above Fatal, and the ends of int8
+var c14levels = []int{-128, -4, -3, -2, -1, 0, 1, 2, 3, 4, 5, 6, 7, 8, 127}
+
+func (g *c14gen) threshold() int {
+	x := g.r.Intn(100)
+	switch {
+	case x < 70:
+		return g.r.Range(-4, 7)
+	case x < 80:
+		return -128
+	case x < 88:
+		return 127
+	default:
+		return g.r.Range(-128, 127)
+	}
+}
+
+func (g *c14gen) funcSet() []int {
+	var set []int
+	for _, l := range c14levels {
+		if g.r.Bool() {
+			set = append(set, l)
+		}
+	}
+	return set
+}
+
+// the core's enabler: a LevelEnablerFunc over the named levels (as before), a LevelEnablerFunc over
+// an arbitrary subset of c14levels, a plain zapcore.Level, or an AtomicLevel
+func (g *c14gen) enab() c14enab {
+	x := g.r.Intn(100)
+	switch {
+	case x < 40:
+		return c14maskEn(g.mask())
+	case x < 58:
+		return c14enab{kind: c14EnFunc, set: g.funcSet()}
+	case x < 76:
+		return c14enab{kind: c14EnLevel, min: g.threshold()}
+	default:
+		return c14enab{kind: c14EnAtomic, min: g.threshold()}
+	}
+}
+
+// a change of the enabler of the same kind (nil for a plain Level, which cannot move)
+func (g *c14gen) move(e c14enab) *c14enab {
+	switch e.kind {
+	case c14EnAtomic:
+		return &c14enab{kind: c14EnAtomic, min: g.threshold()}
+	case c14EnFunc:
+		return &c14enab{kind: c14EnFunc, set: g.funcSet()}
+	}
+	return nil
+}
+
 var c14templates = []string{"", "%d", "%s and %v", "plain", "100%", "%!", "x=%[2]d %[1]v", "témplate %q", "%v %v %v", "\n", "%"}
 
 func c14(ctx *Ctx) {
@@ -591,7 +712,7 @@ func c14(ctx *Ctx) {
 	e1, e2 := c14errs[0], c14errs[1]
 	fl := zap.Int("i", 1)
 	info := func(args ...interface{}) *c14case {
-		return &c14case{mask: c14allOn(), fam: 0, lvl: 0, text: "msg", args: args}
+		return &c14case{en: c14maskEn(c14allOn()), fam: 0, lvl: 0, text: "msg", args: args}
 	}
 	// 1. directed corner cases
 	directed := [][]interface{}{
@@ -602,13 +723,13 @@ func c14(ctx *Ctx) {
 	}
 	for _, a := range directed {
 		c14emit(ctx, info(a...), "directed")
-		c14emit(ctx, &c14case{mask: c14allOn(), withs: []c14with{{false, a}}, fam: 0, lvl: 1, text: "after-with"}, "directed")
-		c14emit(ctx, &c14case{mask: c14allOn(), withs: []c14with{{true, a}}, fam: 1, lvl: 0, args: []interface{}{"lazy"}}, "directed")
+		c14emit(ctx, &c14case{en: c14maskEn(c14allOn()), withs: []c14with{{lazy: false, args: a}}, fam: 0, lvl: 1, text: "after-with"}, "directed")
+		c14emit(ctx, &c14case{en: c14maskEn(c14allOn()), withs: []c14with{{lazy: true, args: a}}, fam: 1, lvl: 0, args: []interface{}{"lazy"}}, "directed")
 	}
 	// development mode: the diagnostics are written and nothing panics below Panic
 	for _, a := range directed[:12] {
-		c14emit(ctx, &c14case{mask: c14allOn(), dev: true, fam: 0, lvl: 0, text: "dev", args: a}, "directed-dev")
-		c14emit(ctx, &c14case{mask: c14allOn(), dev: true, fam: 0, lvl: 3, text: "dev-dpanic", args: a}, "directed-dev")
+		c14emit(ctx, &c14case{en: c14maskEn(c14allOn()), dev: true, fam: 0, lvl: 0, text: "dev", args: a}, "directed-dev")
+		c14emit(ctx, &c14case{en: c14maskEn(c14allOn()), dev: true, fam: 0, lvl: 3, text: "dev-dpanic", args: a}, "directed-dev")
 	}
 	// formatting families, corner cases (the third is the known deviation)
 	fmtCorner := []struct {
@@ -625,7 +746,7 @@ func c14(ctx *Ctx) {
 			if fam != 2 {
 				text = ""
 			}
-			c14emit(ctx, &c14case{mask: c14allOn(), fam: fam, lvl: 0, text: text, args: fc.args}, "directed-fmt")
+			c14emit(ctx, &c14case{en: c14maskEn(c14allOn()), fam: fam, lvl: 0, text: text, args: fc.args}, "directed-fmt")
 		}
 	}
 	// every method of every family at every level, enabled and disabled, with a malformed list
@@ -640,11 +761,70 @@ func c14(ctx *Ctx) {
 					if variant == 2 {
 						m = [7]bool{false, false, false, true, false, false, false} // only Error
 					}
-					c := &c14case{mask: m, fam: fam, lvl: lvl, text: "m %v", generic: generic,
+					c := &c14case{en: c14maskEn(m), fam: fam, lvl: lvl, text: "m %v", generic: generic,
 						args: []interface{}{"k", 1, e1, e2, 3, 4, "dangling"}}
 					c14emit(ctx, c, "methods")
 				}
 			}
+		}
+	}
+	// the gate against every kind of enabler: plain Levels below Debug, non-monotone LevelEnablerFuncs
+	// (sub-Debug and above-Fatal levels included), AtomicLevels -- every family, named method and
+	// Log/Logf/Logw/Logln, at every level of c14levels, with a malformed list (so that message,
+	// fields and diagnostics are all at stake), directly and through a With-derived child
+	bad := []interface{}{fl, "k", 1, e1, e2, 3, 4, "dangling"}
+	enablers := []c14enab{
+		{kind: c14EnLevel, min: -3}, {kind: c14EnLevel, min: -128}, {kind: c14EnLevel, min: -1}, {kind: c14EnLevel, min: 2},
+		{kind: c14EnLevel, min: 6}, {kind: c14EnLevel, min: 127},
+		{kind: c14EnFunc, set: c14levels}, {kind: c14EnFunc, set: []int{-2}}, {kind: c14EnFunc, set: []int{-3, -2, 2}},
+		{kind: c14EnFunc, set: []int{-128, -2, 1, 7, 127}}, {kind: c14EnFunc, set: []int{-4, 0, 2, 4, 8}},
+		{kind: c14EnFunc, set: []int{-128, -3, 3, 5, 6}}, {kind: c14EnFunc, set: []int{7, 127}}, {kind: c14EnFunc},
+		{kind: c14EnAtomic, min: -3}, {kind: c14EnAtomic, min: -128}, {kind: c14EnAtomic, min: 0}, {kind: c14EnAtomic, min: 7},
+	}
+	for ei, en := range enablers {
+		for li, lvl := range c14levels {
+			for fam := 0; fam <= 3; fam++ {
+				for _, generic := range []bool{true, false} {
+					if !generic && (lvl < -1 || lvl > 5) {
+						continue
+					}
+					c := &c14case{en: en, fam: fam, lvl: lvl, text: "g %v", generic: generic, args: bad, dev: (ei+li+fam)%5 == 0}
+					if (ei+li+fam)%2 == 1 {
+						c.withs = []c14with{{lazy: (ei+li)%3 == 0, args: []interface{}{"ctx", ei, 7, 8}}}
+					}
+					c14emit(ctx, c, "gate")
+				}
+			}
+		}
+	}
+	// the enabler moves during the history: loggers derived before the move must follow it
+	moves := []int{-128, -3, -1, 0, 2, 3, 6, 127}
+	n := 0
+	for _, from := range moves {
+		for _, to := range moves {
+			for _, lvl := range c14levels {
+				n++
+				a0, a1 := c14enab{kind: c14EnAtomic, min: from}, c14enab{kind: c14EnAtomic, min: to}
+				// With under the first level, move, call
+				c14emit(ctx, &c14case{en: a0, fam: n % 4, lvl: lvl, text: "mv %v", generic: n%3 != 0, args: bad,
+					withs: []c14with{{lazy: n%2 == 0, args: []interface{}{"k", 1, e1, e2, "dangling"}}, {set: &a1}}}, "gate-move")
+			}
+		}
+	}
+	for li, lvl := range c14levels {
+		for fam := 0; fam <= 3; fam++ {
+			at := func(m int) *c14enab { return &c14enab{kind: c14EnAtomic, min: m} }
+			fs := func(ls ...int) *c14enab { return &c14enab{kind: c14EnFunc, set: ls} }
+			w := c14with{lazy: li%2 == 0, args: []interface{}{5, "v", "k", li, e1, e2}}
+			// diagnostics of the first With visible, of the second dropped (Error disabled at that time), then moved again
+			c14emit(ctx, &c14case{en: *at(-3), fam: fam, lvl: lvl, text: "h %v", generic: true, args: bad,
+				withs: []c14with{w, {set: at(3)}, w, {set: at(-2)}}}, "gate-move")
+			c14emit(ctx, &c14case{en: *at(1), fam: fam, lvl: lvl, text: "h %v", generic: true, args: bad,
+				withs: []c14with{{set: at(-128)}, w, {set: at(5)}, {set: at(-4)}}}, "gate-move")
+			c14emit(ctx, &c14case{en: *fs(0, 1, 2), fam: fam, lvl: lvl, text: "h %v", generic: true, args: bad,
+				withs: []c14with{w, {set: fs(-2, 7)}, w, {set: fs(-128, -3, -2, 2, 6, 127)}}}, "gate-move")
+			c14emit(ctx, &c14case{en: *fs(-3, -2, -1, 0, 1, 2, 3, 4, 5, 6, 7), fam: fam, lvl: lvl, text: "h %v", generic: true, args: bad,
+				withs: []c14with{w, {set: fs(2)}}}, "gate-move")
 		}
 	}
 	// 2. exhaustive: every sequence over {field, error, string, other, nil} up to length K through Infow
@@ -687,14 +867,27 @@ func c14(ctx *Ctx) {
 		maxLen = 40
 	}
 	for k := 0; k < N; k++ {
-		c := &c14case{mask: g.mask(), dev: g.r.Chance(15)}
+		c := &c14case{en: g.enab(), dev: g.r.Chance(15)}
 		for nw := g.r.Intn(3); nw > 0 && g.r.Chance(60); nw-- {
+			if mv := g.move(c.en); mv != nil && g.r.Chance(30) {
+				c.withs = append(c.withs, c14with{set: mv})
+			}
 			c.withs = append(c.withs, c14with{lazy: g.r.Bool(), args: g.list(g.r.Intn(7), g.r.Intn(3))})
 		}
+		if mv := g.move(c.en); mv != nil && g.r.Chance(25) {
+			c.withs = append(c.withs, c14with{set: mv})
+		}
 		c.lvl = g.r.Range(-1, 5)
-		c.generic = g.r.Chance(25)
-		if c.generic && g.r.Chance(20) {
-			c.lvl = g.r.Range(-3, 8)
+		c.generic = g.r.Chance(35)
+		if c.generic && g.r.Chance(50) {
+			switch y := g.r.Intn(10); {
+			case y < 6:
+				c.lvl = c14levels[g.r.Intn(len(c14levels))]
+			case y < 9:
+				c.lvl = g.r.Range(-4, 8)
+			default:
+				c.lvl = g.r.Range(-128, 127)
+			}
 		}
 		x := g.r.Intn(100)
 		class := ""
